@@ -348,43 +348,64 @@ def replay(mod, pid, path):
 
 # ------------------------------------------------------------------ helpers for call-style properties
 def call_result(cases, check_impl=None, nontrivial=None, rule="", model_args=None, extra_samples=3):
-    """cases: list of (fn, args).  Compares impl and model outcome for each case and
-    evaluates check_impl(fn, args, impl_outcome) -> None | dict(expected=..., observed=..., what=...)
+    """cases: list of (fn, args), executed on the implementation IN ORDER, repeats included (so that state
+    left behind by an earlier call - a cache, a buffered cipher context - shows up); the model, being a pure
+    function, is queried once per distinct case.  Compares impl and model outcome for each case and evaluates
+    check_impl(fn, args, impl_outcome) -> None | dict(expected=..., observed=..., what=...)
     (the property's own statement over the implementation).
     model_args(fn, args) maps implementation arguments to the model's arguments."""
     from harness import core
 
-    seen = set()
-    uniq = []
-    for c in cases:
-        k = (c[0], core.model_line(c[0], c[1]))
-        if k not in seen:
-            seen.add(k)
-            uniq.append(c)
-    mcases = [(fn, model_args(fn, args) if model_args else args) for fn, args in uniq]
-    lines = [core.model_line(fn, args) for fn, args in mcases]
-    mres = [core.parse_model(l) for l in core.run_model(lines)]
+    def mline(fn, args):
+        return core.model_line(fn, model_args(fn, args) if model_args else args)
+
+    all_lines = [mline(fn, args) for fn, args in cases]
+    uniq_lines = list(dict.fromkeys(all_lines))
+    mres = dict(zip(uniq_lines, [core.parse_model(l) for l in core.run_model(uniq_lines)]))
     diffs, viol, dist = [], [], {}
-    nontriv = 0
     samples = []
-    for (fn, args), m, line in zip(uniq, mres, lines):
+    seen = set()
+    nontriv = 0
+    for (fn, args), line in zip(cases, all_lines):
+        m = mres[line]
         i = core.impl_call(fn, args)
         key = fn + ":" + (i[0] if i[0] == "OK" else i[1])
         dist[key] = dist.get(key, 0) + 1
-        if nontrivial is None or nontrivial(fn, args, i):
+        first = line not in seen
+        seen.add(line)
+        if first and (nontrivial is None or nontrivial(fn, args, i)):
             nontriv += 1
         if i != m:
-            diffs.append({"fn": fn, "args": [core.show(a) for a in args], "impl": list(i), "model": list(m)})
+            diffs.append({"fn": fn, "args": [core.show(a) for a in args], "impl": list(i), "model": list(m),
+                          "repeat_of_earlier_call": not first})
         if check_impl:
             v = check_impl(fn, args, i)
             if v:
                 v = dict(v)
                 v["input"] = {"fn": fn, "args": [core.show(a) for a in args]}
+                if not first:
+                    v["note"] = "this call repeats an earlier call of the same run (history dependent?)"
                 viol.append(v)
         if len(samples) < extra_samples or (i[0] == "ERR" and len(samples) < 2 * extra_samples):
             samples.append({"request": line, "impl": list(i), "model": list(m)})
     return {"evaluations": len(cases), "distinct_nontrivial": nontriv, "rule": rule, "samples": samples,
             "distribution": dist, "diffs": diffs, "violations": viol}
+
+
+def with_history(rng, cases, variants, fraction=0.25, limit=400):
+    """Interleave neighbours: for a sample of base cases (fn, args) emit base, a variant differing in ONE
+    argument, base again, ... so that any state kept between calls (keyed on part of the arguments) is
+    exercised.  variants(fn, args, i) -> list of replacement values for argument i (valid and invalid)."""
+    out = list(cases)
+    picked = [c for c in cases if rng.random() < fraction][:limit]
+    for fn, args in picked:
+        seq = [(fn, args)]
+        for i in range(len(args)):
+            for v in variants(fn, args, i)[:3]:
+                a2 = tuple(v if j == i else x for j, x in enumerate(args))
+                seq += [(fn, a2), (fn, args)]
+        out += seq
+    return out
 
 
 def merge_results(*rs):
